@@ -243,7 +243,7 @@ class Flow:
             _STEPS += len(cur)
             if _T0 is None:
                 _T0 = __import__('time').time()
-            elif (_STEPS & 63) == 0 and __import__('time').time() - _T0 > TIME_BUDGET:
+            elif __import__("time").time() - _T0 > TIME_BUDGET:
                 from .srcmodel import AnalysisError
                 raise AnalysisError('path exploration took more than %d s (at line %d): the paths of this function, with the helpers '
                                     'expanded in it, multiply beyond what the analysis follows' % (TIME_BUDGET, getattr(st, 'lineno', 0)))
